@@ -179,3 +179,44 @@ func VerifHarness_C19_message_order() {
 	fm, ok := msg.(*finishedMsg)
 	verifAssert("C19.reorder.messagesDeliveredInSequence", ok && fm.getMessageSeq() == seq && len(fm.verifyData) == 2)
 }
+
+// C03 / C08 — the deferred ChangeCipherSpec path: a ChangeCipherSpec that follows a not yet consumed handshake
+// record in the same datagram (ClientKeyExchange, ChangeCipherSpec, Finished packed together) is only noted and
+// applied later by readChangeCipherSpec, which does not look at the record again. It may be noted only if it is
+// the one-byte signal 0x01: ChangeCipherSpec is outside the Finished transcript, so nothing else would notice a
+// different body.
+//
+//verif:harness props=C03,C08 paths=4000 reach=deferred,rejected
+func VerifHarness_C03_dtlcp_deferred_ccs() {
+	hl := verifSplitInt("handshakeLen", 1, 2)
+	h := verifNondetBytes("handshakeRecord", 13+hl)
+	h[0], h[1], h[2], h[3], h[4] = byte(recordTypeHandshake), 1, 1, 0, 0
+	h[5], h[6], h[7], h[8], h[9], h[10] = 0, 0, 0, 0, 0, 1
+	h[11], h[12] = 0, byte(hl)
+	bl := verifSplitInt("ccsBodyLen", 0, 2)
+	ccs := verifNondetBytes("ccsRecord", 13+bl)
+	ccs[0], ccs[1], ccs[2], ccs[3], ccs[4] = byte(recordTypeChangeCipherSpec), 1, 1, 0, 0
+	ccs[5], ccs[6], ccs[7], ccs[8], ccs[9], ccs[10] = 0, 0, 0, 0, 0, 2
+	ccs[11], ccs[12] = 0, byte(bl)
+	d := append(append([]byte(nil), h...), ccs...)
+	t := &verifPConn{in: [][]byte{d}}
+	c := &Conn{pconn: t, remoteAddr: verifAddr{}, config: &Config{Rand: verifRandSrc{}}}
+	c.isClient = verifSplitInt("role", 0, 1) == 1
+	c.vers, c.haveVers = VersionTLCP, true
+	c.hsState.Store(int32(stateWaiting))
+	c.replayWindow = newReplayWindow(64)
+	err := c.readRecordOrCCS(false)
+	wellFormed := bl == 1 && ccs[13] == 1
+	if c.in.deferredCCS {
+		verifReach("deferred")
+		verifAssert("C03.ccs.dtlcpDeferredOnlyIfWellFormed", wellFormed)
+		verifAssert("C08.ccs.dtlcpDeferredOnlyIfWellFormed", wellFormed)
+		c.in.nextCipher = &verifCBC{}
+		c.in.nextMac = &verifMAC{}
+		_ = c.readChangeCipherSpec()
+		verifAssert("C03.ccs.dtlcpAppliedOnlyIfWellFormed", c.in.cipher == nil || wellFormed)
+	} else {
+		verifReach("rejected")
+		verifAssert("C03.ccs.dtlcpMalformedIsAnError", wellFormed || err != nil)
+	}
+}
